@@ -30,6 +30,21 @@ class StructBase(Check):
         for _ in range(sz["rand"]):
             fn = self.mix if rng.random() < 0.5 else self.opsfn
             yield gen.random_history(rng, real, fn, rng.randint(3, sz["rlen"]))
+        # a hub with well over a hundred links (sizes at which an 'optimised' membership test would switch on):
+        # the links attached around the 128th are detached / re-attached / re-pointed from either side
+        for _ in range(1 if tier == "quick" else 4):
+            lines = ["reset", "vertex V", "vertex V", "vertex V"]
+            for k in range(140):
+                lines.append("edge %s V0 V%d" % (rng.choice("DU"), 1 + k % 2) if k % 3 else "edge D V%d V0" % (1 + k % 2))
+            lines.append("obs")
+            for l in [126, 127, 128, 129, 130, 64, 139]:
+                lines.append(rng.choice(["lunlink L%d V0" % l, "rmfromlink V0 L%d" % l, "setv1 L%d V2" % l, "setv2 L%d V1" % l]))
+                lines.append(rng.choice(["addtolink V0 L%d" % l, "ladd L%d V0" % l]))
+                lines.append("addtolink V0 L%d" % l)
+            lines.append("obs")
+            lines.append("unlink V0 V1 destroy")
+            lines.append("obs")
+            yield lines, [real.step(l) for l in lines]
 
     def search(self, tier, rng, real, v):
         # mutate around the divergent script: same prefix, then random continuations
@@ -231,9 +246,38 @@ class C02(StructBase):
         sz = sizes(tier)
         for _name, lines, pool in self.seeds():
             yield from gen.enumerate_histories(real, lines, pool, self.opsfn, sz["depth"] + 1)
-        for _ in range(sz["rand"]):
+        for k_ in range(sz["rand"]):
             fn = all_ops if rng.random() < 0.3 else self.opsfn
-            yield gen.random_history(rng, real, fn, rng.randint(3, sz["rlen"]))
+            # every other history: half of the plain vertices are built by a class whose initialiser runs twice
+            real.inner.double_init = (k_ % 2 == 1)
+            try:
+                yield gen.random_history(rng, real, fn, rng.randint(3, sz["rlen"]))
+            finally:
+                real.inner.double_init = False
+        # a universe that grows past 256 members, shrinks below, and grows back (re-adding vertices that left or
+        # joined during the small phase), from either side
+        for _ in range(1 if tier == "quick" else 4):
+            n = 300
+            lines = ["reset"] + ["vertex V"] * n + ["universe m=%s" % ",".join("V%d" % i for i in range(270))]
+            u = n
+            left = list(range(200, 270))
+            rng.shuffle(left)
+            for i in left[:60]:                                   # 270 -> 210
+                lines.append(rng.choice(["vrem V%d V%d" % (i, u), "urem V%d V%d" % (u, i)]))
+            small_adds = list(range(270, 285))
+            for i in small_adds:                                   # joined during the small phase: 225
+                lines.append(rng.choice(["vadd V%d V%d" % (i, u), "uadd V%d V%d" % (u, i)]))
+            lines.append("obs")
+            for i in left[:60] + list(range(285, 300)):           # back above 256: 300
+                lines.append(rng.choice(["vadd V%d V%d" % (i, u), "uadd V%d V%d" % (u, i)]))
+            lines.append("obs")
+            for i in small_adds + left[:10]:                       # re-adding members: no duplicates
+                lines.append(rng.choice(["vadd V%d V%d" % (i, u), "uadd V%d V%d" % (u, i)]))
+            for i in left[:5]:
+                lines.append("vrem V%d V%d" % (i, u))
+                lines.append("uadd V%d V%d" % (u, i))
+            lines.append("obs")
+            yield lines, [real.step(l) for l in lines]
         # a universe with many members (sizes at which an 'optimised' membership test would switch on):
         # members leave from either side and come back from either side
         for _ in range(2 if tier == "quick" else 12):
